@@ -512,9 +512,25 @@ Definition is_creation (q : req) : bool := match q with RUpd _ _ => false | _ =>
 Lemma cpu_fit_refuted : exists ncpu qs, all_accepted ncpu qs = true /\ inv_cpu ncpu (run ncpu [] qs) = false.
 Proof. exists 8, cpu_witness_1. split; vm_compute; reflexivity. Qed.
 
-Lemma cpu_fit_set_only_ancestor_refuted : exists ncpu qs,
-  forallb is_creation qs = true /\ all_accepted ncpu qs = true /\ inv_cpu ncpu (run ncpu [] qs) = false.
-Proof. exists 8, cpu_witness_2. repeat split; vm_compute; reflexivity. Qed.
+(* witness 2 was the defect repaired in /repo commit 731c638: its last request is now refused *)
+Lemma set_only_ancestor_now_refused :
+  step 8 (run 8 [] (firstn 2 cpu_witness_2)) (RSub [0%nat; 0%nat] 3 (mkRes None (Some (4, 100)) None None)) = None /\
+  inv_cpu 8 (run 8 [] cpu_witness_2) = true.
+Proof. split; vm_compute; reflexivity. Qed.
+
+(* witness 3: the effective cpu set of no group changes, yet the fit breaks: a percentage-only request is sized by
+   len(set) while the reservation it ends up with is capped at NumCPU *)
+Definition s12 : list Z := [0; 1; 2; 3; 4; 5; 6; 7; 8; 9; 10; 11].
+Definition cpu_witness_3 : list req :=
+  [ RNew 1 (mkRes None (Some (12, 100)) (Some s12) None);
+    RSub [0%nat] 2 (mkRes None (Some (4, 100)) None None);
+    RSub [0%nat] 3 (mkRes None (Some (4, 100)) None None);
+    RSub [0%nat] 4 (mkRes None (Some (2, 100)) None None);
+    RUpd [0%nat] (mkRes None (Some (0, 100)) (Some s12) None) ].
+
+Lemma cpu_fit_numcpu_cap_refuted : exists ncpu qs,
+  all_accepted ncpu qs = true /\ inv_cpu ncpu (run ncpu [] qs) = false.
+Proof. exists 8, cpu_witness_3. split; vm_compute; reflexivity. Qed.
 
 (* ---------------------------------------------------------------- cpu sets are nested *)
 
